@@ -559,7 +559,22 @@ func (w *World) computeSig(root *ssa.Function) funcSig {
 		})
 	}
 	sig.Calls = sortedKeys(calls)
-	sig.Order = w.orderSigs(root)
+	for _, g := range familyOf(root).Funcs {
+		pre := ""
+		if g != root {
+			pre = strings.TrimPrefix(g.Name(), root.Name()) + ":"
+		}
+		for _, o := range w.orderSigs(g) {
+			o.E = pre + o.E
+			for i := range o.A {
+				o.A[i] = pre + o.A[i]
+			}
+			for i := range o.B {
+				o.B[i] = pre + o.B[i]
+			}
+			sig.Order = append(sig.Order, o)
+		}
+	}
 	return sig
 }
 
@@ -600,7 +615,49 @@ func errOriginAt(fam *Family, v ssa.Value) *ssa.Call {
 	return nil
 }
 
-// orderSigs: see orderSig. Only the declared function's own body (literals run at another time).
+// reachesInPass: a is executed before b within one pass of the loops enclosing a (back edges — edges into a block that
+// dominates a's block — are not followed).
+func reachesInPass(a, b ssa.Instruction) bool {
+	if a.Parent() != b.Parent() {
+		return false
+	}
+	if a.Block() == b.Block() {
+		return instrIndex(a) < instrIndex(b)
+	}
+	return passReach(a.Block())[b.Block()]
+}
+
+// passReach: the blocks reachable from `from` without starting another pass of a loop that contains `from`: a block
+// that dominates `from` is entered only when it is a loop header (it is passed through towards the loop's exit), never
+// when it is the way back into the body.
+func passReach(from *ssa.BasicBlock) map[*ssa.BasicBlock]bool {
+	isHeader := func(x *ssa.BasicBlock) bool {
+		for _, p := range x.Preds {
+			if x == p || x.Dominates(p) {
+				return true
+			}
+		}
+		return false
+	}
+	seen := map[*ssa.BasicBlock]bool{}
+	var dfs func(x *ssa.BasicBlock)
+	dfs = func(x *ssa.BasicBlock) {
+		for _, sc := range x.Succs {
+			if seen[sc] || sc == from {
+				continue
+			}
+			if sc.Dominates(from) && !isHeader(sc) {
+				continue
+			}
+			seen[sc] = true
+			dfs(sc)
+		}
+	}
+	dfs(from)
+	return seen
+}
+
+// orderSigs: see orderSig. One function body (the declared function or one of its literals) at a time.
 func (w *World) orderSigs(fn *ssa.Function) []orderSig {
 	if len(fn.Blocks) == 0 {
 		return nil
@@ -625,7 +682,7 @@ func (w *World) orderSigs(fn *ssa.Function) []orderSig {
 		if org == nil || org.Parent() != fn {
 			continue
 		}
-		rn, rs := blockReach(nn, nil), blockReach(isNil, nil)
+		rn, rs := passReach(nn), passReach(isNil)
 		rn[nn], rs[isNil] = true, true
 		rejoin := false
 		for x := range rn {
@@ -719,11 +776,11 @@ func (w *World) orderSigs(fn *ssa.Function) []orderSig {
 			if f.in == e.in {
 				continue
 			}
-			fe, ef := instrReaches(f.in, e.in), instrReaches(e.in, f.in)
+			fe, ef := reachesInPass(f.in, e.in), reachesInPass(e.in, f.in)
 			switch {
 			case fe && !ef:
 				nn := failSide[f.in]
-				r := blockReach(nn, nil)
+				r := passReach(nn)
 				r[nn] = true
 				if !r[e.in.Block()] {
 					o.B = append(o.B, fnm[j])
